@@ -23,8 +23,8 @@ type hookCfg struct {
 
 var moments = []string{"before_START_ACTIVITY", "leave_CONFIGURED", "enter_RUNNING", "after_START_ACTIVITY"}
 var mIdx = map[string]int{"before_START_ACTIVITY": 0, "leave_CONFIGURED": 1, "enter_RUNNING": 3, "after_START_ACTIVITY": 4}
-var outcomes = []coresim.Outcome{coresim.OK, coresim.ErrSource, coresim.ErrError, coresim.Silent}
-var outName = map[coresim.Outcome]string{coresim.OK: "exit0", coresim.ErrSource: "exit3", coresim.ErrError: "involuntary", coresim.Silent: "timeout"}
+var outcomes = []coresim.Outcome{coresim.OK, coresim.ErrSource, coresim.ErrError, coresim.Silent, coresim.Undeliverable}
+var outName = map[coresim.Outcome]string{coresim.OK: "exit0", coresim.ErrSource: "exit3", coresim.ErrError: "involuntary", coresim.Silent: "timeout", coresim.Undeliverable: "trigger-error"}
 
 type wfCase struct {
 	name  string
@@ -89,9 +89,12 @@ func scenario(group string, cs []wfCase, q, t vrt.Bounds) *vrt.Scenario {
 			m := coresim.NewMaster(&coresim.Agent{ID: "agentA", Host: "hostA", Attributes: map[string]string{"machine_id": "hostA"}, Cpus: 16, Mem: 16384, PortLo: 9000, PortHi: 40000})
 			m.HookTerminates = true
 			m.Behaviour = func(t *coresim.SimTask, kind string) coresim.Outcome {
-				if kind == "hook-exit" {
+				if kind == "hook-exit" || kind == "hook" {
 					for i := range c.hooks {
 						if t.Class == fmt.Sprintf("c09thook%d", i) {
+							if (assign[i] == coresim.Undeliverable) != (kind == "hook") {
+								return coresim.OK
+							}
 							return assign[i]
 						}
 					}
@@ -165,7 +168,21 @@ func scenario(group string, cs []wfCase, q, t vrt.Bounds) *vrt.Scenario {
 			startCmd := pos("START:c09tmain")
 			if !anyCritFail {
 				if err != nil {
-					fail("non-critical-or-no-failure-failed-the-transition:"+strings.Join(as, "+"), "START failed")
+					// what the core blames (part of the signature: different defects end in this clause)
+					trigErr := false
+					for _, a := range assign {
+						trigErr = trigErr || a == coresim.Undeliverable
+					}
+					how := "other"
+					switch {
+					case strings.Contains(err.Error(), "timed out after") && trigErr:
+						how = "reported-as-timed-out-after-trigger-error"
+					case strings.Contains(err.Error(), "timed out after"):
+						how = "reported-as-timed-out"
+					case strings.Contains(err.Error(), "MESSAGE call failed"):
+						how = "trigger-error-blamed-on-the-whole-slot"
+					}
+					fail("non-critical-or-no-failure-failed-the-transition:"+how+":"+strings.Join(as, "+"), "START failed")
 				} else if st != "RUNNING" {
 					fail("success-but-wrong-state", "")
 				}
